@@ -659,7 +659,7 @@ func init() {
 	histStub := []string{"net.Listener (SimListener)", "net.Conn (SimConn)", "Backend/Session (SimBackend: verdicts derived from addresses and message content, slow returns)", "clock (synctest)", "SMTP client (raw driver)"}
 	register(&Property{
 		ID: "C03", Level: "exploration",
-		Rule:     "command histories of 1-25 commands over a 46-symbol abstract alphabet (valid / backend-rejected / malformed / out-of-order forms of HELO EHLO LHLO MAIL RCPT DATA BDAT RSET NOOP VRFY AUTH STARTTLS QUIT and unknown), three quarters drawn from a state-biased walk and one quarter uniformly; SMTP/LMTP, MaxRecipients 0/2, NewSession failures, slow Data returns so that aborted deliveries overlap what follows; lock-step, single write, or arbitrary segmentation. A reference envelope machine is advanced by the observed replies; backend callbacks are placed between replies by the number of octets the server had written when they began. Non-trivial: >= 3 commands; distinct by (symbol sequence, discipline, mode, limits, backend flavour).",
+		Rule:     "command histories of 1-25 commands over a 46-symbol abstract alphabet (valid / backend-rejected / malformed / out-of-order forms of HELO EHLO LHLO MAIL RCPT DATA BDAT RSET NOOP VRFY AUTH STARTTLS QUIT and unknown), three quarters drawn from a state-biased walk and one quarter uniformly; SMTP/LMTP, MaxRecipients 0/2, NewSession failures, slow Data returns so that aborted deliveries overlap what follows; lock-step, single write, or arbitrary segmentation. A reference envelope machine is advanced by the observed replies; backend callbacks are placed between replies by the number of octets the server had written when they began. Non-trivial: >= 3 commands; distinct by (symbol sequence, discipline, mode, limits, backend flavour). Messages the backend refuses early with most of the message or chunk unread (DATA-early, BDAT-early, BDAT-last-early); a stratum with a Data/Mail/Rcpt callback slower than ReadTimeout. The Reset that signals a transaction end must precede the answer to the next command.",
 		Gen:      genC03,
 		Check:    checkC03,
 		Classify: classifyHist,
